@@ -26,6 +26,7 @@ import (
 	"verif/harness/c01"
 	"verif/harness/evid"
 	"verif/harness/kgen"
+	"verif/harness/mint"
 	"verif/harness/ref/der"
 	ref "verif/harness/ref/krbcrypto"
 	"verif/harness/refcheck"
@@ -319,7 +320,7 @@ func Eval(c Case) evid.Verdict {
 				case mayBeAcceptable:
 					// with a verified PAC the user name is legitimately the PAC's EffectiveName (also sealed by the KDC)
 					pacName := q.AP.PAC != "" && q.AP.DecodePAC
-					if (got.user != m.CName && !pacName) || got.domain != m.CRealm || !got.authed {
+					if (got.user != plainName(m.CName) && !pacName) || got.domain != m.CRealm || !got.authed {
 						return evid.Fail("identity:token", "inner handler saw identity %q@%q (authenticated=%v); the accepted ticket seals %q@%q; %s", got.user, got.domain, got.authed, m.CName, m.CRealm, ctx)
 					}
 					if sm != nil && !sm.failNew && sm.lastCook != "" {
@@ -371,6 +372,10 @@ func Eval(c Case) evid.Verdict {
 	})
 }
 
+// plainName renders a minted name (components separated by "/", literal slashes escaped as %2F) the way
+// PrincipalNameString does.
+func plainName(s string) string { return strings.Join(mint.Name(s), "/") }
+
 func classify(q Req) string {
 	if q.Header != "token" {
 		return q.Header
@@ -405,7 +410,7 @@ func apiLevel(q Req, kt *keytab.Keytab, opts []func(*service.Settings), exp c01.
 				return evid.Fail("api-ok-nil-context", "AcceptSecContext reported success with a nil context")
 			}
 			cr, _ := ctx.Value("github.com/jcmturner/gokrb5/v8/ctxCredentials").(*credentials.Credentials)
-			if cr == nil || cr.CName().PrincipalNameString() != m.CName || cr.Domain() != m.CRealm {
+			if cr == nil || fmt.Sprintf("%q", cr.CName().NameString) != fmt.Sprintf("%q", mint.Name(m.CName)) || cr.Domain() != m.CRealm {
 				return evid.Fail("api-identity", "AcceptSecContext context does not carry the sealed identity %s@%s", m.CName, m.CRealm)
 			}
 			if status.Code != gssapi.StatusComplete {
